@@ -375,7 +375,7 @@ def main():
                 print(f"{mu['name']}: does not build: {b.stdout[:300]}"); continue
             for p in mu['props']:
                 t=time.time()
-                r=run(f"cd /verif && VERIF_SECONDS={secs} ./check {p} quick")
+                r=run(f"cd /verif && VERIF_EVIDENCE_DIR=/verif/.work/evidence-scratch VERIF_SECONDS={secs} ./check {p} quick")
                 lines=[l for l in r.stdout.splitlines() if l.startswith('VIOLATION') or l.strip().startswith('rule=')]
                 rules=[l.strip().split()[0] for l in r.stdout.splitlines() if l.strip().startswith('rule=')]
                 status={0:'MISSED',1:'CAUGHT',2:'MACHINERY'}.get(r.returncode,str(r.returncode))
